@@ -409,7 +409,7 @@ class Input(object):
         addr_data = b''
         unlock_script = b''
         if self.script_type in ['sig_pubkey', 'p2sh_p2wpkh']:
-            if not self.public_hash and self.keys:
+            if self.keys:
                 self.public_hash = self.keys[0].hash160
             if not self.keys and not self.public_hash:
                 return
